@@ -682,6 +682,55 @@ pub fn run_ind<C: KeyColl>(tr: &mut Trace, states: &[Snap], with_export: bool) {
     }
 }
 
+/// Fault enumeration from the start states of IndKey.tla: every red-black tree up to a size x every
+/// pattern of expired / live nodes.  At time 1 (the entries with expiration 1 have just expired) every
+/// query form for every probe and every insertion into every gap is made with its j-th callback
+/// panicking, j = 1, 2, .. until the call completes; after each the stored keys are looked up.
+pub fn run_ind_faults<C: KeyColl>(tr: &mut Trace, states: &[Snap]) {
+    let mut s: KeySession<C> = KeySession::new(tr, 1, 0, 1);
+    for snap in states {
+        if s.tr.full() {
+            break;
+        }
+        if !s.load_snap(snap, 0, 0) {
+            continue;
+        }
+        let stored: Vec<i32> = s.mine.iter().map(|x| x.0).collect();
+        let top = stored.iter().cloned().max().unwrap_or(0) + 1;
+        s.keys = top;
+        let mut calls: Vec<KOp> = vec![];
+        for p in 0..=top + 1 {
+            calls.push(KOp::Le { t: 1, p });
+            calls.push(KOp::Get { t: 1, k: p });
+            calls.push(KOp::Lt { t: 1, p });
+            calls.push(KOp::By { t: 1, th: 2 * p + 1 });
+        }
+        for k in 1..=top {
+            if !s.live_dup(k, 1) {
+                calls.push(KOp::Ins { k, e: 2, v: k * 1000 + 29, t: 1 });
+            }
+        }
+        for call in &calls {
+            let mut j = 1u64;
+            loop {
+                if !s.load_snap(snap, 0, 0) {
+                    break;
+                }
+                s.apply(call, j);
+                let unwound = s.last_unwound;
+                for k in &stored {
+                    s.apply(&KOp::Get { t: 1, k: *k }, 0);
+                }
+                s.apply(&KOp::Le { t: 1, p: top + 1 }, 0);
+                if !unwound || j > 120 {
+                    break;
+                }
+                j += 1;
+            }
+        }
+    }
+}
+
 /// fault enumeration: for every path, every call of the alphabet and every callback index j the
 /// call makes, the j-th user callback panics; afterwards the collection is observed and used again
 pub fn run_faults<C: KeyColl>(tr: &mut Trace, paths: &[(usize, Vec<KOp>)], keys: i32, tmax: i32) {
